@@ -21,13 +21,13 @@
 #include "core/eval_expression.h"
 #include "table/webasm.h"
 
-// Set when the operand could not be evaluated in pass 1 (forward reference).
-static bool is_unknown;
-
+// is_unknown is set when the operand could not be evaluated in pass 1
+// (forward reference).
 static int get_uint(
   AsmContext *asm_context,
   uint64_t *value,
-  int as_bin)
+  int as_bin,
+  bool &is_unknown)
 {
   Var var;
 
@@ -66,7 +66,11 @@ static int get_uint(
 // and leaves a note in the first byte so that pass 2 pads the real value
 // to the same length: otherwise every label after a forward reference
 // would move between the passes.
-static int add_var(AsmContext *asm_context, uint64_t value, bool is_signed)
+static int add_var(
+  AsmContext *asm_context,
+  uint64_t value,
+  bool is_signed,
+  bool is_unknown)
 {
   const uint32_t start = asm_context->address;
   int fixed_size = 0;
@@ -116,6 +120,7 @@ int parse_instruction_webasm(AsmContext *asm_context, char *instr)
   char token[TOKENLEN];
   char instr_case[TOKENLEN];
   uint64_t value, count;
+  bool is_unknown = false;
   int64_t i;
   int type;
   int length, n;
@@ -140,7 +145,7 @@ int parse_instruction_webasm(AsmContext *asm_context, char *instr)
         length = 1;
         break;
       case WEBASM_OP_UINT32:
-        if (get_uint(asm_context, &value, 1) != 0) { return -1; }
+        if (get_uint(asm_context, &value, 1, is_unknown) != 0) { return -1; }
 
         if (value < 0 || value > 0xffffffff)
         {
@@ -154,7 +159,7 @@ int parse_instruction_webasm(AsmContext *asm_context, char *instr)
         length = 5;
         break;
       case WEBASM_OP_UINT64:
-        if (get_uint(asm_context, &value, 1) != 0) { return -1; }
+        if (get_uint(asm_context, &value, 1, is_unknown) != 0) { return -1; }
 
         add_bin8(asm_context, table_webasm[n].opcode, IS_OPCODE);
         add_bin32(asm_context, value & 0xffffffff, 0);
@@ -163,15 +168,15 @@ int parse_instruction_webasm(AsmContext *asm_context, char *instr)
         length = 9;
         break;
       case WEBASM_OP_VARINT64:
-        if (get_uint(asm_context, &value, 0) != 0) { return -1; }
+        if (get_uint(asm_context, &value, 0, is_unknown) != 0) { return -1; }
 
         add_bin8(asm_context, table_webasm[n].opcode, IS_OPCODE);
-        length = add_var(asm_context, value, false);
+        length = add_var(asm_context, value, false, is_unknown);
 
         length += 1;
         break;
       case WEBASM_OP_VARINT32:
-        if (get_uint(asm_context, &value, 0) != 0) { return -1; }
+        if (get_uint(asm_context, &value, 0, is_unknown) != 0) { return -1; }
 
         i = (int64_t)value;
 
@@ -182,14 +187,14 @@ int parse_instruction_webasm(AsmContext *asm_context, char *instr)
         }
 
         add_bin8(asm_context, table_webasm[n].opcode, IS_OPCODE);
-        length = add_var(asm_context, value & 0xffffffff, true);
+        length = add_var(asm_context, value & 0xffffffff, true, is_unknown);
 
         length += 1;
         break;
       case WEBASM_OP_FUNCTION_INDEX:
       case WEBASM_OP_LOCAL_INDEX:
       case WEBASM_OP_GLOBAL_INDEX:
-        if (get_uint(asm_context, &value, 0) != 0) { return -1; }
+        if (get_uint(asm_context, &value, 0, is_unknown) != 0) { return -1; }
 
         if (value < 0 || value > 0xffffffff)
         {
@@ -198,7 +203,7 @@ int parse_instruction_webasm(AsmContext *asm_context, char *instr)
         }
 
         add_bin8(asm_context, table_webasm[n].opcode, IS_OPCODE);
-        length = add_var(asm_context, value, false);
+        length = add_var(asm_context, value, false, is_unknown);
 
         length += 1;
         break;
@@ -226,7 +231,7 @@ int parse_instruction_webasm(AsmContext *asm_context, char *instr)
         length = 2;
         break;
       case WEBASM_OP_RELATIVE_DEPTH:
-        if (get_uint(asm_context, &value, 0) != 0) { return -1; }
+        if (get_uint(asm_context, &value, 0, is_unknown) != 0) { return -1; }
 
         i = (int64_t)value;
 
@@ -237,23 +242,23 @@ int parse_instruction_webasm(AsmContext *asm_context, char *instr)
         }
 
         add_bin8(asm_context, table_webasm[n].opcode, IS_OPCODE);
-        length = add_var(asm_context, value & 0xffffffff, true);
+        length = add_var(asm_context, value & 0xffffffff, true, is_unknown);
 
         length += 1;
         break;
       case WEBASM_OP_TABLE:
-        if (get_uint(asm_context, &value, 0) != 0) { return -1; }
+        if (get_uint(asm_context, &value, 0, is_unknown) != 0) { return -1; }
 
         add_bin8(asm_context, table_webasm[n].opcode, IS_OPCODE);
-        length = add_var(asm_context, value & 0xffffffff, true);
+        length = add_var(asm_context, value & 0xffffffff, true, is_unknown);
 
         count = value;
 
         for (j = 0; j < count; j++)
         {
           if (expect_token(asm_context, ',') == -1)  { return -1; }
-          if (get_uint(asm_context, &value, 0) != 0) { return -1; }
-          length += add_var(asm_context, value & 0xffffffff, true);
+          if (get_uint(asm_context, &value, 0, is_unknown) != 0) { return -1; }
+          length += add_var(asm_context, value & 0xffffffff, true, is_unknown);
         }
 
         token_type = tokens_get(asm_context, token, TOKENLEN);
